@@ -1,6 +1,7 @@
 import Fabio.Driver.Proto
 import Fabio.Model.C11
 import Fabio.Model.C11Load
+import Fabio.Model.C11Deploy
 namespace Fabio.Driver.C11
 open Lean Fabio.Driver Fabio.Model.C11
 
@@ -670,7 +671,153 @@ def e2eH : Handler := fun inp impl => do
   return ({ model := Json.arr (results.map (·.model)).toArray, agree := results.all (·.agree), spec := firstBad.isNone,
             nontrivial := results.any (·.nontrivial), tag := firstBad.getD "ok" } : Verdict).toJson
 
+/-! ### c11.listeners -/
+
+def lsnCertFile (c : Json) : List Char :=
+  (strOf c "file" ++ (if boolOf c "pair" then "-cert.pem" else ".pem")).toList
+
+def lsnKeyFile (c : Json) : List Char :=
+  (strOf c "file" ++ (if boolOf c "pair" then "-key.pem" else ".pem")).toList
+
+/-- the files of a source: certificate `i` of the description is issued for key `i` -/
+def lsnBlocks (certs : List Json) : Blocks :=
+  certs.zipIdx.flatMap fun (c, i) =>
+    if boolOf c "pair" then [(lsnCertFile c, ⟨some i, none⟩), (lsnKeyFile c, ⟨none, some i⟩)]
+    else [(lsnCertFile c, ⟨some i, some i⟩)]
+
+def lsnSource (s : Json) (certs : List Json) : SourceCfg :=
+  if strOf s "type" == "file" then
+    match certs with
+    | [c] => ⟨.file (lsnCertFile c) (lsnKeyFile c), lsnBlocks certs⟩
+    | _ => ⟨.file [] [], lsnBlocks certs⟩
+  else ⟨.dir, lsnBlocks certs⟩
+
+def lsnCertsAt (s : Json) (epoch : Nat) : List Json :=
+  if epoch ≥ 1 && !(arrOf s "epoch2").isEmpty then arrOf s "epoch2" else arrOf s "certs"
+
+def lsnStrictOpt (l : Json) : Option (List Char) :=
+  let v := strOf l "strict"
+  if v.isEmpty then none else some v.toList
+
+def ansIdx : Answer → Int
+  | .cert c => c.id
+  | _ => -1
+
+structure LsnRes where
+  agree : Bool
+  bad : Option String
+  nontrivial : Bool
+  model : Json
+
+def lsnOne (sc impl : Json) : LsnRes :=
+  let sources := (arrOf sc "sources").toArray
+  let listeners := arrOf sc "listeners"
+  let reqs := (strList (arrOf sc "reqs")).map String.toList
+  let nEpochs := if sources.any (fun s => !(arrOf s "epoch2").isEmpty) then 2 else 1
+  -- model: config → source → loadCertificates → store of the listener → getCertificate with the listener's option
+  let modelAt (e : Nat) : List (List Int) := listeners.map fun l =>
+    let s := sources[(intOf l "src").toNat]?.getD Json.null
+    let certs := lsnCertsAt s e
+    let ca := certs.toArray
+    let src := lsnSource s certs
+    let names (i : Nat) : List Model.C11.Name := match ca[i]? with | some c => (certOf i c).names | none => []
+    let lc : ListenerCfg := ⟨(intOf l "src").toNat, lsnStrictOpt l⟩
+    reqs.map fun r => match sourceIds src (src.blocks.map (·.1)) with
+      | some ids => ansIdx (listenerAnswer names ids lc r)
+      | none => -1
+  -- the property, without the loaders' and the store's code: the certificates in the order of their file names,
+  -- the declarative answer, strictness as the listener's own option says
+  let specSetAt (s : Json) (e : Nat) : CertSet :=
+    let certs := lsnCertsAt s e
+    if strOf s "type" == "file" then (certs.zipIdx.map fun (c, i) => certOf i c).take 1
+    else ((certs.zipIdx.map fun (c, i) => (lsnCertFile c, certOf i c)).mergeSort (fun a b => lexLe a.1 b.1)).map (·.2)
+  let specAt (e : Nat) : List (List Int) := listeners.map fun l =>
+    let s := sources[(intOf l "src").toNat]?.getD Json.null
+    reqs.map fun r => ansIdx (specAnswer (specSetAt s e) r (strOf l "strict" == "true"))
+  let epochs := List.range nEpochs
+  let mAns := epochs.map modelAt
+  let sAns := epochs.map specAt
+  let iAns : List (List (List Int)) := (arrOf impl "answers").map fun ep => match ep with
+    | .arr ls => ls.toList.map fun l => match l with
+      | .arr xs => xs.toList.map fun x => x.getInt?.toOption.getD (-99)
+      | _ => []
+    | _ => []
+  let ready := boolOf impl "ready"
+  -- first (epoch, listener, request) at which the implementation's answer is not the property's
+  let bad : Option String := (epochs.zip (iAns.zip sAns)).findSome? fun (e, (ia, sa)) =>
+    ((listeners.zip (ia.zip sa)).findSome? fun (l, (il, sl)) =>
+      let s := sources[(intOf l "src").toNat]?.getD Json.null
+      ((reqs.zip (il.zip sl)).findSome? fun (r, (iv, sv)) =>
+        if iv == sv then none
+        else some ("listener:" ++ branch (specSetAt s e) r (strOf l "strict" == "true") ++ (if e ≥ 1 then "+epoch2" else ""))))
+  let shapeOk := iAns.length == nEpochs && (iAns.all fun ia => ia.length == listeners.length && ia.all fun il => il.length == reqs.length)
+  let bad := if bad.isNone && !shapeOk then some "harness-shape" else bad
+  -- two listeners on one source whose strictness differs and a name on which that shows, or a second epoch
+  let differ := listeners.any fun l1 => listeners.any fun l2 =>
+    intOf l1 "src" == intOf l2 "src" && (strOf l1 "strict" == "true") != (strOf l2 "strict" == "true") &&
+    (let s := sources[(intOf l1 "src").toNat]?.getD Json.null
+     reqs.any fun r => specAnswer (specSetAt s 0) r true != specAnswer (specSetAt s 0) r false)
+  { agree := iAns == mAns && ready, bad := bad, nontrivial := differ || nEpochs == 2,
+    model := Json.arr (mAns.map fun ep => Json.arr (ep.map fun l => Json.arr (l.map fun (i : Int) => Json.num i).toArray).toArray).toArray }
+
+def listenersH : Handler := fun inp impl => do
+  if hasHarnessError impl then
+    return ({ model := Json.null, agree := false, spec := true, nontrivial := false, tag := "harness-error" } : Verdict).toJson
+  let scns := arrOf inp "scns"
+  let impls := match impl with | .arr a => a.toList | _ => []
+  if impls.length != scns.length then
+    return ({ model := Json.null, agree := false, spec := true, nontrivial := false, tag := "harness-shape" } : Verdict).toJson
+  let results := (scns.zip impls).map fun p => lsnOne p.1 p.2
+  let firstBad := results.findSome? (·.bad)
+  return ({ model := Json.arr (results.map (·.model)).toArray, agree := results.all (·.agree), spec := firstBad.isNone,
+            nontrivial := results.any (·.nontrivial), tag := firstBad.getD "ok" } : Verdict).toJson
+
+/-! ### c11.closure -/
+
+def closEnc (p : Presented × List Model.C11.Name) : String × Int × List String :=
+  let calls := p.2.map String.ofList
+  match p.1 with
+  | .cert c => ("cert", (c.id : Int), calls)
+  | .issued _ => ("issued", -1, calls)
+  | .noCert => ("none", -1, calls)
+  | .errNoCerts => ("nocerts", -1, calls)
+  | .issueErr => ("err", -1, calls)
+
+def closureH : Handler := fun inp impl => do
+  let strict := boolOf inp "strict"
+  let cs : CertSet := if boolOf inp "set" then certSetOf (arrOf inp "certs") else []
+  let reqs := strList (arrOf inp "reqs")
+  let kind := strOf inp "issuer"
+  let issuer : Option IssuerFn := match kind with
+    | "ok" => some fun _ => some ⟨1000, []⟩
+    | "fail" => some fun _ => none
+    | _ => none
+  let model := reqs.map fun r => closEnc (tlsGetCertificate issuer (mkPublished cs) r.toList strict)
+  -- the property plus the contract of an issuing source, without the closure's code: a certificate of the set
+  -- whenever the declarative answer is one (and then the issuer is left alone); otherwise the issuer's word for
+  -- the name as sent, or - without issuer - nothing / ErrNoCertsStored
+  let specOf (r : String) : String × Int × List String := match specAnswer cs r.toList strict with
+    | .cert c => ("cert", (c.id : Int), [])
+    | a => match kind with
+      | "ok" => ("issued", -1, [r])
+      | "fail" => ("err", -1, [r])
+      | _ => (if a == .noCert then "none" else "nocerts", -1, [])
+  let spec := reqs.map specOf
+  let implL : List (String × Int × List String) := (match impl with | .arr a => a.toList | _ => []).map fun j =>
+    (strOf j "kind", intOf j "i" (-1), strList (arrOf j "calls"))
+  let firstBad := ((reqs.zip (implL.zip spec)).findSome? fun (r, (i, sp)) =>
+    if i == sp then none else some (kind ++ ":" ++ branch cs r.toList strict))
+  let firstBad := if firstBad.isNone && implL.length != reqs.length then some "harness-shape" else firstBad
+  let asked := spec.any fun sp => sp.1 != "cert"
+  let served := spec.any fun sp => sp.1 == "cert"
+  let toJ (l : List (String × Int × List String)) : Json := Json.arr (l.map fun (k, i, c) =>
+    Json.mkObj [("kind", k), ("i", Json.num i), ("calls", Json.arr (c.map Json.str).toArray)]).toArray
+  return ({ model := toJ model, agree := implL == model, spec := firstBad.isNone,
+            nontrivial := asked && served && cs.length ≥ 2,
+            tag := firstBad.getD (kind ++ ":" ++ (match reqs with | r :: _ => branch cs r.toList strict | [] => "noreq")) } : Verdict).toJson
+
 def streams : List (String × Handler) :=
   [("c11.select", selectH), ("c11.watch", watchH), ("c11.watch_gap", gapH), ("c11.race", raceH),
-   ("c11.loaders", loadersH), ("c11.source", sourceH), ("c11.e2e", e2eH)]
+   ("c11.loaders", loadersH), ("c11.source", sourceH), ("c11.e2e", e2eH), ("c11.listeners", listenersH),
+   ("c11.closure", closureH)]
 end Fabio.Driver.C11
